@@ -337,9 +337,9 @@ type Mutator struct {
 	// Way/Relation/Dense message hooks receive the faithful message bytes of
 	// element index i of group gi and return what to emit instead.
 	StringIndex func(place string, idx uint64) uint64
-	DropDense   map[int]bool // dense field numbers to drop (1 ids, 8 lat, 9 lon)
+	DropDense   map[int]bool   // dense field numbers to drop (1 ids, 8 lat, 9 lon)
 	Truncate    map[string]int // column name -> number of trailing entries to drop
-	PlainNodes  bool // emit group field 1 (plain Node) instead of dense
+	PlainNodes  bool           // emit group field 1 (plain Node) instead of dense
 }
 
 func (m *Mutator) sidx(place string, idx uint64) uint64 {
@@ -615,10 +615,10 @@ type BlobOpt struct {
 
 // Frame is the byte layout of one encoded file block.
 type Frame struct {
-	Start     int // offset of the 4-byte length prefix
-	HeaderAt  int // offset of the BlobHeader
-	BlobAt    int // offset of the Blob
-	End       int // offset of the next block
+	Start    int // offset of the 4-byte length prefix
+	HeaderAt int // offset of the BlobHeader
+	BlobAt   int // offset of the Blob
+	End      int // offset of the next block
 }
 
 // EncodeBlob builds the Blob message for a payload.
